@@ -31,6 +31,7 @@ CInit == l = 1 /\ up = FALSE
 AcceptedOk == LET r == StartState(Ev.cfg, PathsOf(Ev.cfg, Ev.tree)) IN
               /\ Matches(Ev.cfg, r.ts, Ev.st)
               /\ ListsOk(Ev.cfg, r.ts.conn, Ev.lists)
+              /\ LookupsOk(Ev.cfg, r.ts.conn, r.ts.addr, Ev.lists)
               /\ AspectListsOk(Ev.cfg, Ev.aspects)
 
 TCfgStart == /\ IsEv("cfgstart")
